@@ -398,11 +398,14 @@ class FileProxy:
 
     def write(self, data):
         self._shim.op("write", self._path)
+        self._shim.buffered.add(self._path)          # in the process's buffer, not yet handed to the OS
         return self._real.write(data)
 
     def flush(self):
         self._shim.op("flush", self._path)
-        return self._real.flush()
+        out = self._real.flush()
+        self._shim.buffered.discard(self._path)
+        return out
 
     def fileno(self):
         return self._real.fileno()
@@ -417,6 +420,10 @@ class FileProxy:
                 # the process is gone: buffered data never reaches the file
                 self._shim.abandon(self._real)
             else:
+                if self._path in self._shim.buffered:
+                    # close() hands the rest of the buffer to the OS only now: after any fsync, so not durable
+                    self._shim.buffered.discard(self._path)
+                    self._shim.unsynced.add(self._path)
                 self._real.close()
 
     def __enter__(self):
@@ -449,9 +456,11 @@ class OsProxy:
         return fd
 
     def fsync(self, fd):
-        self._shim.op("fsync", self._shim.fd_path.get(fd))
+        path = self._shim.fd_path.get(fd)
+        self._shim.op("fsync", path)
         res = os.fsync(fd)
-        self._shim.unsynced.discard(self._shim.fd_path.get(fd))
+        if path not in self._shim.buffered:
+            self._shim.unsynced.discard(path)        # only what was flushed before is made durable
         return res
 
     def rename(self, src, dst):
@@ -499,6 +508,7 @@ class FsShim:
         self.only = only            # predicate (name, args): fail the first matching op instead of an index
         self.ops = []
         self.unsynced = set()
+        self.buffered = set()
         self.fd_path = {}
         self.dead = False
         self.fired = False
